@@ -57,6 +57,17 @@ def run_property(spec, tier, seed):
     broken = []   # names of proof obligations / ties that no longer check
     rng = random.Random(seed * 1000003 + sum(map(ord, pid)))
 
+    # 0. the implementation side is built first: the translator reads compiler-determined layout
+    #    constants from the harness binary compiled against the current tree
+    binary, hout = core.build_harness(release=spec.release)
+    if binary is None:
+        log(hout[-6000:])
+        log("ERROR: harness does not build against the current /repo tree")
+        print("VIOLATION property=%s replay=%s no-failing-input-found" % (
+            pid, core.write_replay(pid, "harness_build", {"broken": "harness build", "log": hout[-4000:]})))
+        finish(spec, tier, seed, t0, {}, 1, 0, [], [], 1, notes)
+        return 1
+
     # 1. tie, part one: regenerate tables from the current source
     if spec.gen_tables:
         ok, out = core.regen_tables(spec.gen_tables)
@@ -98,16 +109,6 @@ def run_property(spec, tier, seed):
                 proofs_ok = False
     cone = core.coq_cone(spec.prop_vo[:-1])
     n_obl, obl_names = core.count_obligations(cone)
-
-    # 4. the implementation side
-    binary, out = core.build_harness(release=spec.release)
-    if binary is None:
-        log(out[-6000:])
-        log("ERROR: harness does not build against the current /repo tree")
-        print("VIOLATION property=%s replay=%s no-failing-input-found" % (
-            pid, core.write_replay(pid, "harness_build", {"broken": "harness build", "log": out[-4000:]})))
-        finish(spec, tier, seed, t0, {}, n_obl, 0, cone, assumptions_used, 1, notes)
-        return 1
 
     known = [k for k in core.load_known() if k["property"] == pid]
     open_known = [k for k in known if k.get("status") == "open"]
